@@ -1,1 +1,138 @@
-From ZV Require Import Lib.Base Lib.WireTypes Model.Wire Model.WireGen Proofs.Wire Proofs.WireGen.
+(** C24 - wire conversion is lossless and the gRPC service is total.
+    Model: Model/Wire.v (generic interpreter of classified conversions) + Generated/ProtoFields.v
+    (tables regenerated from api_proto.go / query_proto.go by translator/protofields on every run). *)
+From ZV Require Import Lib.Base Lib.WireTypes Model.Wire Model.WireGen Proofs.Wire Proofs.WireGen Generated.ProtoFields.
+From Coq Require Import String.
+
+(** GENERIC: any environment (set of conversion tables + Q cases) that passes the boolean check
+    [env_ok] round-trips every value of the domain of every invertible conversion pair. *)
+Theorem C24_roundtrip_generic : forall E, env_ok E = true ->
+  forall v ct cf, inv_ok E ct cf = true -> dom_b E ct cf v = true ->
+  exists w, apply E ct v = Ok w /\ apply E cf w = Ok v.
+Proof. intros E HE v ct cf. exact (roundtrip_all E HE v ct cf). Qed.
+Print Assumptions C24_roundtrip_generic.
+
+(** The tables generated from the current sources pass the check, for every regexp oracle. *)
+Theorem C24_generated_tables_ok : forall rn, env_ok (gen_env rn) = true /\ from_safe (gen_env rn) = true.
+Proof. intros rn. split; [apply gen_env_ok|apply gen_from_safe]. Qed.
+Print Assumptions C24_generated_tables_ok.
+
+(** Search options, search results, repository listings and all their parts: every struct type with a
+    ToProto/FromProto pair survives the round trip for ALL values of its domain, except for the
+    named exclusions (c24_exclusions), which come back as their zero value. *)
+Theorem C24_record_roundtrip : forall rn n t fs,
+  lookup n pf_tables = Some t ->
+  dom_b (gen_env rn) (CRec true false n) (CRec false false n) (VR fs) = true ->
+  exists w, apply (gen_env rn) (CRec true false n) (VR fs) = Ok w /\
+            apply (gen_env rn) (CRec false false n) w
+            = Ok (VR (mask_excl (excl_of (gen_env rn) n) (t_from t) fs)).
+Proof. exact gen_record_roundtrip. Qed.
+Print Assumptions C24_record_roundtrip.
+
+(** The Go fields that FromProto does not read from the message are exactly the three named ones. *)
+Theorem C24_exclusions_exact :
+  flat_map (fun nt => map (fun r => (fst nt, r_dst r))
+                          (filter (fun r => match r_src r with None => true | Some _ => false end) (t_from (snd nt))))
+           pf_tables
+  = [("zoekt.SearchOptions", "SpanContext"); ("zoekt.SearchResult", "RepoURLs"); ("zoekt.SearchResult", "LineFragments")]%string.
+Proof. exact gen_unmapped_fields. Qed.
+Print Assumptions C24_exclusions_exact.
+
+(** Query trees of every node kind: QFromProto (QToProto q) = q. *)
+Theorem C24_query_roundtrip : forall rn q,
+  dom_b (gen_env rn) CQTo CQFrom q = true ->
+  exists w, apply (gen_env rn) CQTo q = Ok w /\ apply (gen_env rn) CQFrom w = Ok q.
+Proof. exact gen_query_roundtrip. Qed.
+Print Assumptions C24_query_roundtrip.
+
+(** ... and "every node kind" is checked against the source: each type of package query that
+    implements query.Q has a QToProto case or is a named exclusion (parse-time-only kinds). *)
+Theorem C24_qkinds_covered : qkinds_covered = true.
+Proof. exact gen_qkinds_covered. Qed.
+Print Assumptions C24_qkinds_covered.
+
+(** The gRPC handlers answer every wire-decoded request - with any subset of fields set - without
+    panicking, for every searcher that does not panic when it is given non-nil options. *)
+Theorem C24_handlers_total : forall rn search list,
+  (forall q o w, o <> VNil -> search q o <> Panic w) ->
+  (forall q o w, list q o <> Panic w) ->
+  forall h req, wire_wf req = true ->
+  forall w, handle (gen_env rn) search list handler_defaults_nil_opts h req <> Panic w.
+Proof. exact gen_handlers_total. Qed.
+Print Assumptions C24_handlers_total.
+
+(** the statement C24_handlers_total was false before the repairs 5dbbb25 and fe94a82 (kept as a record) *)
+Theorem C24_handlers_total_refuted_before_repair :
+  (exists req, wire_wf req = true /\
+     handle (pre_repair_env (fun s => Some s)) ok_streamer ok_streamer false 0 req = Panic P_NIL) /\
+  (exists req, wire_wf req = true /\
+     handle (gen_env (fun s => Some s)) ok_streamer ok_streamer false 0 req = Panic P_NIL).
+Proof.
+  split.
+  - exists (VR [("Query"%string, VNil); ("Opts"%string, VNil)]). split; [reflexivity|exact pre_repair_unset_query_panics].
+  - exists (VR [("Query"%string, VQ "Q_Const" (VB true)); ("Opts"%string, VNil)]). split; [reflexivity|exact pre_repair_nil_opts_panics].
+Qed.
+Print Assumptions C24_handlers_total_refuted_before_repair.
+
+(* ---------------------------------------------------------------- non-vacuity *)
+
+Definition ex_rn (s : list N) : option (list N) := Some s.
+
+Definition ex_opts : list (string * val) :=
+  [("EstimateDocCount", VB false); ("Whole", VB true); ("ShardMaxMatchCount", VZ 100);
+   ("TotalMaxMatchCount", VZ (-1)); ("ShardRepoMaxMatchCount", VZ 9223372036854775807);
+   ("MaxWallTime", VZ (-1500000001)); ("FlushWallTime", VZ 250000000); ("MaxDocDisplayCount", VZ 10);
+   ("MaxMatchDisplayCount", VZ 0); ("NumContextLines", VZ 3); ("ChunkMatches", VB true);
+   ("UseBM25Scoring", VB true); ("Trace", VB false); ("DebugScore", VB true);
+   ("SpanContext", VM [(VS [116%N], VS [120%N])])]%string.
+
+(** a SearchOptions value with a negative duration and a set SpanContext is in the domain, and the
+    SpanContext (only) is reset by the round trip *)
+Example C24_ex_opts_in_domain :
+  dom_b (gen_env ex_rn) (CRec true false "zoekt.SearchOptions") (CRec false false "zoekt.SearchOptions") (VR ex_opts) = true.
+Proof. vm_compute. reflexivity. Qed.
+Example C24_ex_opts_roundtrip :
+  (do w <- apply (gen_env ex_rn) (CRec true false "zoekt.SearchOptions") (VR ex_opts);
+   apply (gen_env ex_rn) (CRec false false "zoekt.SearchOptions") w)
+  = Ok (VR (firstn 14 ex_opts ++ [("SpanContext"%string, VM [])])).
+Proof. vm_compute. reflexivity. Qed.
+
+(** every generated zoekt table has a value in its domain (the zero value of the Go struct); the
+    query node tables with nil children / nil regexps in their zero value are inhabited by ex_query *)
+Example C24_ex_all_tables_inhabited :
+  forallb (fun nt => negb (String.prefix "zoekt." (fst nt)) || dom_b (gen_env ex_rn) (CRec true false (fst nt)) (CRec false false (fst nt))
+                           (zero_rec (t_from (snd nt)))) pf_tables = true.
+Proof. vm_compute. reflexivity. Qed.
+
+Definition ex_query : val :=
+  VQ "query.And" (VR [("Children", VL [
+     VQ "query.Not" (VR [("Child", VQ "query.Substring" (VR [("Pattern", VS [102;111;111]%N); ("CaseSensitive", VB true); ("FileName", VB false); ("Content", VB true)]))]);
+     VQ "query.Type" (VR [("Child", VQ "query.Const" (VR [("Value", VB true)])); ("Type", VZ 2)]);
+     VQ "query.RawConfig" (VZ 37);
+     VQ "query.FileNameSet" (VR [("Set", VL [VS [97]%N; VS [98]%N])]);
+     VQ "query.Boost" (VR [("Child", VQ "query.Regexp" (VR [("Regexp", VS [97;46;42]%N); ("FileName", VB false); ("Content", VB false); ("CaseSensitive", VB false)])); ("Boost", VZ 4609434218613702656)])])])%string.
+
+Example C24_ex_query_in_domain : dom_b (gen_env ex_rn) CQTo CQFrom ex_query = true.
+Proof. vm_compute. reflexivity. Qed.
+
+(** a Type node with an unnamed kind value is outside the domain, and indeed does not come back *)
+Example C24_ex_query_outside_domain :
+  let q := VQ "query.Type" (VR [("Child", VQ "query.Const" (VR [("Value", VB true)])); ("Type", VZ 7)])%string in
+  dom_b (gen_env ex_rn) CQTo CQFrom q = false /\
+  (do w <- apply (gen_env ex_rn) CQTo q; apply (gen_env ex_rn) CQFrom w) <> Ok q.
+Proof. split; [vm_compute; reflexivity|vm_compute; discriminate]. Qed.
+
+(** requests with unset query / childless Not / unset options are wire-well-formed and are answered *)
+Example C24_ex_unset_query_is_an_error :
+  handle (gen_env ex_rn) ok_streamer ok_streamer handler_defaults_nil_opts 0
+         (VR [("Query", VNil); ("Opts", VNil)])%string = Err ERR_INVALID_ARGUMENT.
+Proof. vm_compute. reflexivity. Qed.
+Example C24_ex_childless_not_is_an_error :
+  handle (gen_env ex_rn) ok_streamer ok_streamer handler_defaults_nil_opts 1
+         (VR [("Request", VR [("Query", VQ "Q_Not" (VR [("Child", VNil)])); ("Opts", VNil)])])%string
+  = Err ERR_INVALID_ARGUMENT.
+Proof. vm_compute. reflexivity. Qed.
+Example C24_ex_nil_opts_is_answered :
+  handle (gen_env ex_rn) ok_streamer ok_streamer handler_defaults_nil_opts 0
+         (VR [("Query", VQ "Q_Const" (VB true)); ("Opts", VNil)])%string = Ok VNil.
+Proof. vm_compute. reflexivity. Qed.
